@@ -86,6 +86,37 @@ theorem witness_sound (g : Cfg) (t : TxIn) (vs : List Var) (ids : List Nat) (p :
     obtain ⟨v, hv, hiv⟩ := hcover i hi
     exact ⟨v, hv, by simpa using hiv⟩
 
+/-! ## Layer G — refinement checkpoints inside the graph algorithm (soundness side) -/
+
+open MoPepGen.Graph in
+/-- CP1, soundness: whatever walk the position automaton of the transcript variant graph
+admits — alt sequences attached between the reference node ending at `start` and the one
+starting at `stop` — takes records of the pool that are ascending and strictly separated,
+and emits exactly the transcript carrying them: the graph cannot denote a sequence that no
+compatible combination yields. -/
+theorem tvg_automaton_sound (seq : List Char) (pool : List Var) (w : List Char) (h : List Var)
+    (hw : Walk seq pool 0 false w h) :
+    (∀ v ∈ h, v ∈ pool) ∧ separated h = true ∧ w = applyHap seq h := by
+  obtain ⟨h1, h2, h3⟩ := walk_sound seq pool 0 false w h hw
+  exact ⟨h1, separated_of_sepFrom h 0 _ h2, by simpa [applyHap] using h3⟩
+
+open MoPepGen.Graph in
+/-- every path the driver enumerates on a dump is a maximal path of that graph -/
+theorem paths_sound (g : Graph) (i : Nat) (p : List Nat) (hp : p ∈ paths g i) : MaxPath g i p :=
+  pathsFrom_sound g _ i p hp
+
+open MoPepGen.Graph in
+/-- non-vacuity: the automaton of `ACGT` with the SNV `C→T` at 1 has the walk taking it -/
+example : Walk "ACGT".toList
+    [{ start := 1, stop := 2, ref := ['C'], alt := ['T'], cls := .snv, ids := [0] }] 0 false
+    "ATGT".toList [{ start := 1, stop := 2, ref := ['C'], alt := ['T'], cls := .snv, ids := [0] }] := by
+  apply Walk.ref (c := 'A') (by decide)
+  apply Walk.var (v := { start := 1, stop := 2, ref := ['C'], alt := ['T'], cls := .snv, ids := [0] })
+    (by simp) (by decide)
+  apply Walk.ref (c := 'G') (by decide)
+  apply Walk.ref (c := 'T') (by decide)
+  exact Walk.done (by decide)
+
 /-! non-vacuity: a concrete coding transcript with one SNV; the variant peptide is in the set -/
 example : (haplotypes
     { seq := "ATGGCC".toList, coding := true, orfStart := 0, orfEnd := 6, startNF := false,
